@@ -392,6 +392,46 @@ static void gw_walks(uint64_t N, int L, unsigned seed) {
     free(prog);
 }
 
+/* ---- cold starts: every first step (and every pair of first steps) a program can take is executed in a pristine process -
+ * a fork of this one, taken before the library under test was used at all - so that what the library creates lazily, once per
+ * process (thread-specific keys, once-initialisers), is exercised with every call as the very first one. Only in a child of the
+ * supervisor (the failing grandchild reports and prints the resume point, the child then ends). ---- */
+static int gw_cold_enabled;
+static void gw_cold_run(const int *prog, int len) {
+    if (gw_ordinal < gw_skip) { gw_ordinal++; return; }
+    fflush(stdout);
+    pid_t pid = fork();
+    if (pid == 0) {
+        int rc = gw_exec(prog, len);      /* a mismatch or a sanitizer report prints RESUME and ends this process */
+        fflush(stdout);
+        _exit(rc == 1 ? 77 : 0);
+    }
+    int st = 0;
+    if (pid > 0) waitpid(pid, &st, 0);
+    gw_ordinal++; gw_programs++; gw_steps += len;
+    for (int i = 0; i < len; i++) if (!gw_edge_seen[prog[i]]) { gw_edge_seen[prog[i]] = 1; gw_edges_covered++; }
+    if (pid < 0 || !WIFEXITED(st) || WEXITSTATUS(st) != 0) { fflush(stdout); _exit(77); }
+}
+static void gw_cold(void) {
+    if (!gw_cold_enabled || !gw_forked) return;
+    int cap = gw_nstates + 8, *prog = malloc(sizeof(int) * cap);
+    for (int i = 0; i < gw_ninit; i++) {
+        gw_state *s = &gw_states[gw_inits[i]];
+        for (int k = 0; k < s->nedges; k++) {
+            prog[0] = s->first + k;
+            int len = gw_complete(prog, 1, cap);
+            if (len) gw_cold_run(prog, len);
+            gw_state *d = &gw_states[gw_edges[prog[0]].dst];
+            for (int j = 0; j < d->nedges && !gw_timeup(20); j++) {
+                prog[1] = d->first + j;
+                len = gw_complete(prog, 2, cap);
+                if (len) gw_cold_run(prog, len);
+            }
+        }
+    }
+    free(prog);
+}
+
 static void gw_print_stats(int complete) {
     printf("STATS {\"programs\": %llu, \"steps\": %llu, \"distinct\": %llu, \"nontrivial\": %llu, \"mismatches\": %llu, "
            "\"edges\": %d, \"edges_covered\": %llu, \"states\": %d, \"time_cut\": %d, \"paths_complete\": %s}\n",
@@ -559,6 +599,7 @@ static int gw_main(int argc, char **argv) {
                 int complete = 1;
                 if (getenv("GW_PROGS")) { gw_progs(getenv("GW_PROGS")); complete = 0; }
                 else {
+                gw_cold();
                 if (D > 0) complete = gw_paths(D, budget);
                 gw_cover(getenv("GW_COVER_TAIL") ? atoi(getenv("GW_COVER_TAIL")) : 4, seed);
                 if (walks) gw_walks(walks, L, seed + 17);
